@@ -961,6 +961,8 @@ class CObs:
         return CObs(self.real, -self.imag)
 
     def __add__(self, other):
+        if other.__class__.__name__ == 'Corr':
+            return NotImplemented
         if isinstance(other, np.ndarray):
             return other + self
         elif hasattr(other, 'real') and hasattr(other, 'imag'):
@@ -973,6 +975,8 @@ class CObs:
         return self + y
 
     def __sub__(self, other):
+        if other.__class__.__name__ == 'Corr':
+            return NotImplemented
         if isinstance(other, np.ndarray):
             return -1 * (other - self)
         elif hasattr(other, 'real') and hasattr(other, 'imag'):
@@ -984,6 +988,8 @@ class CObs:
         return -1 * (self - other)
 
     def __mul__(self, other):
+        if other.__class__.__name__ == 'Corr':
+            return NotImplemented
         if isinstance(other, np.ndarray):
             return other * self
         elif hasattr(other, 'real') and hasattr(other, 'imag'):
@@ -1006,6 +1012,8 @@ class CObs:
         return self * other
 
     def __truediv__(self, other):
+        if other.__class__.__name__ == 'Corr':
+            return NotImplemented
         if isinstance(other, np.ndarray):
             return 1 / (other / self)
         elif hasattr(other, 'real') and hasattr(other, 'imag'):
